@@ -93,11 +93,8 @@ def allow_extension_once(prog, rep, core):
         flag = ('param', 2)
         byhead = {}
         for s in segs:
-            has = flag in s.state.facts
-            if s.kind == 'loop' and has and flag in [k for k, v in list(s.state.facts.items())[-len(s.state.facts):]]:
-                # a fact on the flag in a segment that continues the loop: is it decided inside this segment?
-                if any(k == flag for k in facts_added(s)):
-                    bad.append('allow_extension is tested inside the subtag loop')
+            if s.kind == 'loop' and flag in s.facts:
+                bad.append('allow_extension is tested before or inside the subtag loop')
             if s.kind in ('return',):
                 byhead.setdefault(s.src, []).append(s)
         nret = 0
